@@ -126,6 +126,7 @@ func c17Files(run *vx.Run) []c17File {
 
 func checkC17(args []string) {
 	run := vx.NewRun("C17", "fault_enumeration", args)
+	activeRun = run
 	run.Rule = "every proper prefix (length 0..len-1) of every file of the structure classes; the cut position is classified by the syntax element the first removed byte belongs to, using the layout map computed by the TLA+ reader (spec/Riff.tla LayoutMap); distinct = distinct (file class, element class) pairs that were cut"
 	run.Assumptions = []string{"files come from this tree's encoder; the TLA+ strict reader must accept each complete file"}
 	files := c17Files(run)
@@ -141,7 +142,7 @@ func checkC17(args []string) {
 			run.Violate("nonconformant-file|"+f.name, "strict reader rejects the complete file: "+l.Why, f.name)
 			continue
 		}
-		full, err := webp.Decode(bytes.NewReader(f.data))
+		full, err := guardedDecode(f.data)
 		if err != nil {
 			run.Violate("full-decode-fails|"+f.name, err.Error(), f.name)
 			continue
@@ -182,7 +183,7 @@ func truncOne(pre []byte, full image.Image, fcfg image.Config, ffeat *webp.Featu
 		}
 	}()
 	identical := false
-	if im, err := webp.Decode(bytes.NewReader(pre)); err == nil {
+	if im, err := guardedDecode(pre); err == nil {
 		if fmt.Sprintf("%T", im) != fmt.Sprintf("%T", full) || !sameImage(im, full) {
 			return "partial-picture", fmt.Sprintf("Decode of the prefix returned a different picture (%T %v)", im, im.Bounds())
 		}
